@@ -1,3 +1,6 @@
+(* STATUS NOTE (third session): remarks of the form "NOT PROVED" in the comments below were written when the first theorems of this
+   file were stated; theorems added further down in this file supersede them.  The current status of the property is the row of
+   DESIGN.md section 14.4; the premises that remain are listed in DESIGN.md section 14.9. *)
 (* C20 — Runs are reproducible: the same operations give the same transcript.
    This is the property to which a theorem contributes least: memory addresses, hash seeds and other
    threads are not part of any Gallina model.  PROVED is what the model can carry:
